@@ -7,7 +7,7 @@ of integer variables and constraints to boolean satisfiability clauses.
 Not part of the public API - use Model from cp.py instead.
 """
 
-from itertools import combinations
+from itertools import combinations, product
 from typing import TYPE_CHECKING, Any
 
 from solvor.sat import Status as SATStatus
@@ -430,22 +430,28 @@ class SATEncoder:
         max_end = max(s.ub + d for s, d in zip(starts, durations))
 
         for t in range(min_start, max_end):
+            # Per task: the start literals under which it is running at time t
             active_lits = []
             active_demands = []
             for i in range(n):
+                lits = []
                 for s in range(max(starts[i].lb, t - durations[i] + 1), min(starts[i].ub, t) + 1):
                     if s in starts[i].bool_vars and s <= t < s + durations[i]:
-                        active_lits.append(starts[i].bool_vars[s])
-                        active_demands.append(demands[i])
+                        lits.append(starts[i].bool_vars[s])
+                if lits:
+                    active_lits.append(lits)
+                    active_demands.append(demands[i])
 
             if not active_lits:
                 continue
 
-            if len(active_lits) <= 10:
-                self._encode_capacity_constraint(active_lits, active_demands, capacity)
+            self._encode_capacity_constraint(active_lits, active_demands, capacity)
 
-    def _encode_capacity_constraint(self, lits: list[int], demands: list[int], capacity: int) -> None:
-        """Encode sum constraint: if all lits true, demands sum must <= capacity."""
+    def _encode_capacity_constraint(self, lits: list[list[int]], demands: list[int], capacity: int) -> None:
+        """Encode sum constraint: tasks running together must have demands sum <= capacity.
+
+        lits[i] holds the literals under which task i is running (at most one of them is true).
+        """
         n = len(lits)
         for size in range(1, n + 1):
             for subset in combinations(range(n), size):
@@ -459,7 +465,8 @@ class SATEncoder:
                         if not is_minimal:
                             break
                     if is_minimal:
-                        self._clauses.append([-lits[i] for i in subset])
+                        for choice in product(*(lits[i] for i in subset)):
+                            self._clauses.append([-lit for lit in choice])
 
     # Constraint dispatcher
 
